@@ -175,10 +175,7 @@ def glyphRow (f : Font) (fgC bgC : List UInt8) (step : Nat) :
   | n+1, fb, fbOff, fontOff, rowData, mask =>
     -- `if mask == 0 { fontOffset++; fontRowData = Data[fontOffset]; mask = 1 << 7 }`
     let st : Option (Nat × Nat × Nat) :=
-      if mask = 0 then
-        match f.data[add32 fontOff 1]? with
-        | none => none
-        | some d => some (add32 fontOff 1, d.toNat, 128)
+      if mask = 0 then (f.data[add32 fontOff 1]?).map (fun d => (add32 fontOff 1, d.toNat, 128))
       else some (fontOff, rowData, mask)
     match st with
     | none => none
